@@ -563,6 +563,14 @@ macro_rules! gen_runner {
                 }
                 if p.rng.chance(1, 3) {
                     st.reopens += 1;
+                    // "across commit and reopen": what was committed must also pass redb's own verification of the stored
+                    // checksums (value subtrees included) -- a healthy database answers Ok(true)
+                    // (only right after a commit: after an ABORTED transaction that grew the file check_integrity answers
+                    //  Ok(false) once -- recorded finding c11-integrity-false-after-unpublished-growth, C11's subject)
+                    if !do_abort && p.rng.chance(1, 2) {
+                        let r = catch(|| db.as_mut().unwrap().check_integrity());
+                        log.put("integrity", &match r { Ok(Ok(b)) => format!("Ok({b})"), Ok(Err(e)) => format!("ERR:{e}"), Err(m) => format!("PANIC:{m}") }, "-");
+                    }
                     drop(db.take());
                     db = Some(open(&mem, p.ps));
                     log.put("reopen", "ok", "-");
